@@ -24,8 +24,10 @@ def _obs(f, s):
         return {"err": "EValue"}
     except IndexError:
         return {"err": "EIndex"}
-    if not isinstance(v, float):
-        return {"crash": "NotAFloat", "msg": repr(v)}
+    if isinstance(v, bool) or not isinstance(v, (int, float)):
+        return {"other": type(v).__name__, "repr": repr(v)[:80]}
+    if isinstance(v, int):      # the property speaks of a number of seconds, not of its Python type
+        return {"num": str(v), "den": "1", "hex": float(v).hex() if abs(v) < 2 ** 53 else None, "int": True}
     if math.isnan(v):
         return {"nan": True}
     if math.isinf(v):
@@ -37,7 +39,7 @@ def _obs(f, s):
 def _tobs(o):
     if "err" in o:
         return "(TErr %s)" % o["err"]
-    if "crash" in o:
+    if "crash" in o or "other" in o:
         return "(TErr ECrash)"
     if "nan" in o:
         return "TNan"
@@ -117,24 +119,33 @@ class Tm:
 
     @staticmethod
     def oracle(case, obs):
-        a, b = obs.get("a"), obs.get("b")
+        if not isinstance(obs, dict) or "a" not in obs or "b" not in obs:
+            return "[harness] no observation for TM %r: %r" % (case["s"], obs)
+        a, b = obs["a"], obs["b"]
         m = Tm._rx.match(case["s"])
         if not m:
             return None      # the property speaks about valid TM strings only
         hh, mm, ss, ff = m.groups()
         if ":" in case["s"] and case["s"].count(":") != (2 if ss is not None else 1 if mm is not None else 0):
             return None      # colons must separate every field or none
-        if a != b:
-            return "the two implementations disagree on the TM string %r: %r vs %r" % (case["s"], a, b)
-        exact = int(hh) * 3600 + (int(mm) * 60 if mm else 0)
-        want = float(exact) + float(ss + "." + ff if ff else ss) if ss else float(exact)
-        if "hex" not in a or a["hex"] != want.hex():
-            return "TM %r -> %r, expected %s = hh*3600+mm*60+ss.ffffff" % (case["s"], a, want.hex())
-        return None
+        if int(hh) > 23 or (mm and int(mm) > 59) or (ss and int(ss) > 60):
+            return None      # not a valid TM value (DICOM: 00-23, 00-59, 00-60); the model is exact there, the property silent
+        msgs = []
+        # exact value hh*3600 + mm*60 + ss.ffffff as a rational; an implementation may round once or twice on the way
+        want = Fraction(int(hh) * 3600 + (int(mm) * 60 if mm else 0)) + (Fraction(ss + ("." + ff if ff else "")) if ss else 0)
+        for name, o in (("dcmstack.dcm_time_to_sec", a), ("extract.tm_to_seconds", b)):
+            if "num" not in o:
+                msgs.append("[raised] %s(%r) gives %r for a valid TM string" % (name, case["s"], o))
+            elif abs(Fraction(int(o["num"]), int(o["den"])) - want) > Fraction(1, 2 ** 34):
+                msgs.append("[value] %s(%r) = %s/%s, expected hh*3600+mm*60+ss.ffffff = %s" % (name, case["s"], o["num"], o["den"], want))
+        if "num" in a and "num" in b and (a["num"], a["den"]) != (b["num"], b["den"]):
+            msgs.append("[differ] the two implementations disagree on the TM string %r: %s/%s vs %s/%s" % (case["s"], a["num"], a["den"], b["num"], b["den"]))
+        return msgs[0] if msgs else None
 
     @staticmethod
     def signature(case, obs, msg):
-        return "tm-string"
+        m = re.match(r"\[(\w+)\]", msg)
+        return "tm/" + (m.group(1) if m else "other")
 
     @staticmethod
     def nontrivial(case, obs):
